@@ -484,9 +484,10 @@ def rule_default_kind(prog, rep, tier, scope=None):
                         elif isinstance(c, ast.Compare) and len(c.ops) == 1 and isinstance(c.ops[0], ast.Is) and read_key(c.left) == key \
                                 and isinstance(c.comparators[0], ast.Constant) and c.comparators[0].value is None and not pol:
                             not_none = True
-                    return not_none and {"int", "float", "str"} <= excluded
-                if len(alts) > 1 and all(settled(a) for a in alts):
-                    evidence = "in every alternative of the guard the default is a str (or none of the kinds a default can be)"
+                    # None, int (bool is an int) and float excluded: of the kinds a default can be only a str is left
+                    return not_none and {"int", "float"} <= excluded
+                if alts != [[]] and all(settled(a) for a in alts):
+                    evidence = "in every alternative of the guard the default is a str (None, int and float are excluded, or it is tested to be a str)"
             where = fi
             while where.parent_fn is not None:
                 where = where.parent_fn
